@@ -518,11 +518,22 @@ def run_rewriter(ctx, model, rng, corp):
         lx, ps = ODataLexer(), ODataParser()
         for _ in range(rng.randint(0, 8)):   # use (and break) the instances first
             outcome(rng.choice(corp)[1], lx, ps)
+        if i % 3 == 0:
+            # ... and make the LAST use one that stops part-way (tokens left unread)
+            outcome(rng.choice(["a eq eq 1 and b eq 2", "nope(1) eq 2 and b eq 3", "a eq 1 ) and c", "length() eq 1 or d",
+                                "a eq", "x/any(y: y eq ) and z"]), lx, ps)
         m = rng.choice(maps)
         try:
+            # the construction that hands over only ONE used instance comes first: the other
+            # constructions parse successfully and would tidy the instances up
+            order = i % 3
+            ponly = AliasRewriter(m, parser=ps).replacements if order == 0 else None
+            lonly = AliasRewriter(m, lexer=lx).replacements if order == 1 else None
             used = AliasRewriter(m, lx, ps).replacements
             fresh = AliasRewriter(m).replacements
-            half = AliasRewriter(m, lexer=lx).replacements
+            half = AliasRewriter(m, lexer=lx).replacements if lonly is None else lonly
+            if (ponly if ponly is not None else AliasRewriter(m, parser=ps).replacements) != fresh:
+                half = "parser-only differs"
         except Exception as e:
             ctx.fail({"history_kind": "rewriter", "map": m}, "AliasRewriter construction raised",
                      observed=repr(e)[:200], cls="rewriter", sig=["rw-exc"])
